@@ -108,7 +108,7 @@ def c01(ctx):
 def c05(ctx):
     F = facts_of(ctx)
     RA.rule_bind(ctx, COUNTMIN)
-    RA.rule_attr_type(ctx, COUNTMIN)
+    RA.rule_attr_type(ctx, COUNTMIN, methods=("add", "add_ngram", "update", "update_ngram", "query", "__getitem__"))
     RA.rule_ceil(ctx)
     RA.rule_qmin(ctx)
     RA.rule_cons(ctx)
@@ -341,7 +341,7 @@ def c16(ctx):
       "Not decided: the algebraic composition 'bulk rule == v unit rules' for linear/heavy-hitter cells (hand argument from newcount/bm-table).")
 def c12(ctx):
     RA.rule_bind(ctx)
-    RA.rule_attr_type(ctx)
+    RA.rule_attr_type(ctx, methods=("add", "add_ngram", "update", "update_ngram"))
     RT.rule_deleg(ctx)
     RT.rule_window(ctx)
     RT.rule_value_fwd(ctx)
@@ -386,7 +386,7 @@ def c02(ctx):
     RA.rule_call_width(ctx, [ks["add"], ks["ngram"]])
     RA.rule_cover(ctx, [ks["merge"]])
     RA.rule_other_ro(ctx, [ks["merge"]])
-    RT.rule_mergeguard(ctx, hll)
+    # (refusing sketches of another precision/seed is C15's; this property is stated for a fixed precision and seed)
     RT.rule_window(ctx, hll)
     RT.rule_deleg(ctx, hll)
     RT.rule_wrapper_once(ctx, hll)
@@ -462,7 +462,7 @@ def c06(ctx):
     RA.rule_cons(ctx, [k for k in RA.add_kernels(F) if k.key in logk])
     RA.rule_newcount(ctx, only=logk)
     RA.rule_bind(ctx, COUNTMIN[1:])
-    RA.rule_attr_type(ctx, COUNTMIN[1:])        # num_reserved / base / ceiling reach every log kernel at full width
+    RA.rule_attr_type(ctx, COUNTMIN[1:], methods=("add", "add_ngram", "update", "update_ngram", "query", "__getitem__"))        # num_reserved / base / ceiling reach every log kernel at full width
     ctx.floor("randtoken", 10)
     ctx.floor("batchconst", 7)
     ctx.floor("expo", 5)
